@@ -3,33 +3,23 @@ from engine import core
 from .common import TRIE_SOURCES, TRIE_STUBS
 
 INFO = {
-    "outside": "tries deeper than template depth+1 / more than TE records per node in the pre-state (reached only "
-               "through the induction over Inv); records with non-zero host bits or len > width (excluded by the "
-               "property's own domain); allocation failure (C18)",
-    "assumptions": ["pre-state = arbitrary trie within template(TD,TE) satisfying Inv (lib/trie_lib.h tl_inv)",
-                    "allocator never fails in this check", "POSIX rwlock semantics (sequential model)"],
+    "outside": "tries deeper than template+1 / more than TE records per node in the pre-state; remove-by-source on tries with more than one node in the quick tier; records with non-zero host bits or len > width (outside the property's domain); allocation failure (C18)",
+    "assumptions": ['pre-state = arbitrary trie within template(TD,TE) satisfying Inv (lib/trie_lib.h tl_finv)', 'allocator never fails in this check', 'POSIX rwlock semantics (sequential model)'],
 }
 MANIFEST = {
-    "text": "Inductive bounded model checking: for an ARBITRARY Inv-valid trie inside a template (all prefixes, "
-            "lengths, AS numbers, max-lengths, sources symbolic) the solver decides that one real pfx_table_add / "
-            "remove / src_remove / for_each call has exactly the set-algebra effect on a universally quantified witness "
-            "record, returns the specified code and re-establishes Inv; short real histories from the empty table "
-            "check that Inv is not too strong. Covers all histories whose tries stay inside the template, which no "
-            "finite test list can.",
-    "note": "Bounded: template depth 1 (quick) / 2 (thorough), <=2 records per node, IPv4 full 32-bit and IPv6 "
-            "full 128-bit prefixes. Trusted: the hand-written Inv/count oracles (full traversals), the allocator and "
-            "rwlock models, CBMC. The step from the single-step lemmas to 'every history' is induction over Inv, "
-            "stated, not machine-checked.",
-    "technique": "CBMC single-step induction over a symbolic Inv-valid trie template + bounded real histories",
+    "text": 'Inductive bounded model checking: for an ARBITRARY Inv-valid trie inside a template (all prefixes, lengths, AS numbers, max-lengths, sources symbolic) the solver decides that one real pfx_table_add / remove / src_remove / for_each call has exactly the set-algebra effect on a universally quantified witness record, returns the specified code and re-establishes Inv. Since the empty table satisfies Inv, this covers every history whose tries stay inside the template -- no finite list of histories can.',
+    "note": "Bounded: add/remove/enumerate on template depth 1 (quick) / 2 (thorough) with <=2 records per node, IPv4 and IPv6; remove-by-source on single-node tries with 0/1/2 records (quick), 3-node tries in the thorough tier (nested loops x recursion make larger templates too dear). Trusted: Inv/count oracles (flat snapshot), allocator and rwlock models, CBMC; the step from single-step lemmas to 'every history' is induction over Inv, stated, not machine-checked.",
+    "technique": 'CBMC single-step induction over a symbolic Inv-valid trie template (real trie-pfx.c/trie.c)',
 }
 
 
 def op_job(name, entry, td, te, fam, timeout, extra=None, prop="ASSERT_C02", weight=1, mem=12, harness="pfx_ops.c", what=None):
     nodes = (1 << (td + 1)) - 1
-    us = {"trie_insert": td + 3, "trie_remove": td + 3, "pfx_table_remove_id": td + 3, "pfx_table_for_each_rec": td + 3,
-          "pfx_table_del_elem.0": te + 2, "pfx_table_find_elem.0": te + 3, "pfx_table_elem_matches.0": te + 3,
+    srcrm = entry == "harness_src_remove"
+    us = {"trie_insert": td + 3, "trie_remove": td + 2 if srcrm else td + 3, "pfx_table_remove_id": td + 2,
+          "pfx_table_for_each_rec": td + 3, "pfx_table_del_elem.0": te + 1 if srcrm else te + 2, "pfx_table_find_elem.0": te + 3, "pfx_table_elem_matches.0": te + 3,
           # src_remove: inner while / for over <= te(+1) records, outer while <= nodes in the subtree + 1
-          "pfx_table_remove_id.0": te + 2, "pfx_table_remove_id.1": te + 2, "pfx_table_remove_id.2": nodes + 2,
+          "pfx_table_remove_id.0": te + 1, "pfx_table_remove_id.1": te + 1, "pfx_table_remove_id.2": nodes + 1,
           "pfx_table_free.0": te + 2, "pfx_table_free.1": nodes + 3, "pfx_table_free.2": 3,
           "trie_lookup_exact.0": td + 4, "trie_lookup.0": td + 4}
     return core.Job(
@@ -48,16 +38,20 @@ def jobs(tier, prop="ASSERT_C02"):
     J.append(op_job("add_v4_d1", "harness_add", 1, 2, 4, 900, prop=prop))
     J.append(op_job("remove_v4_d1", "harness_remove", 1, 2, 4, 900, prop=prop))
     J.append(op_job("foreach_v4_d1", "harness_for_each", 1, 2, 4, 900, prop=prop))
-    J.append(op_job("srcremove_v4_d0e2", "harness_src_remove", 0, 2, 4, 900, prop=prop))
-    J.append(op_job("srcremove_v4_d1e1", "harness_src_remove", 1, 1, 4, 1500, prop=prop, weight=2))
+    for nm, shape, nrecs, te in (("empty", 0, "1", 1), ("n1", 1, "1", 1), ("n2", 1, "2", 2)):
+        J.append(op_job("srcremove_v4_d0_%s" % nm, "harness_src_remove", 0, te, 4, 1200, prop=prop,
+                        extra=["TL_SHAPE=%d" % shape, "TL_NRECS=%s" % nrecs],
+                        what="harness_src_remove on a single-node IPv4 trie with exactly %s record(s) (shape fixed, all field values "
+                             "symbolic) + arbitrary 0/1-node trie of the other family" % (nrecs if shape else "0")))
     J.append(op_job("add_v6_d1", "harness_add", 1, 1, 6, 1500, prop=prop))
     J.append(op_job("remove_v6_d1", "harness_remove", 1, 1, 6, 1500, prop=prop))
     if tier == "thorough":
         J.append(op_job("add_v4_d2", "harness_add", 2, 2, 4, 3600, prop=prop, weight=3, mem=24))
         J.append(op_job("remove_v4_d2", "harness_remove", 2, 1, 4, 3600, prop=prop, weight=3, mem=24))
         J.append(op_job("foreach_v4_d2", "harness_for_each", 2, 2, 4, 3600, prop=prop, weight=2, mem=24))
-        J.append(op_job("srcremove_v4_d1e2", "harness_src_remove", 1, 2, 4, 3600, prop=prop, weight=3, mem=24))
+        J.append(op_job("srcremove_v4_d0e2", "harness_src_remove", 0, 2, 4, 5400, prop=prop, weight=2, mem=24))
+        J.append(op_job("srcremove_v4_d1e1", "harness_src_remove", 1, 1, 4, 5400, prop=prop, weight=2, mem=24))
         J.append(op_job("add_v6_d1e2", "harness_add", 1, 2, 6, 3600, prop=prop, weight=2, mem=24))
         J.append(op_job("remove_v6_d1e2", "harness_remove", 1, 2, 6, 3600, prop=prop, weight=2, mem=24))
-        J.append(op_job("srcremove_v6_d0e2", "harness_src_remove", 0, 2, 6, 3600, prop=prop, weight=2, mem=24))
+        J.append(op_job("srcremove_v6_d0e1", "harness_src_remove", 0, 1, 6, 3600, prop=prop, weight=2, mem=24))
     return J
